@@ -85,7 +85,14 @@ def run_unit(ctx):
     TP_PLAN, TP_OUT = Plan("after-transform"), ("transformed-out",)
     RESULT = object()
     node = graph.Call(user_fn)
-    cause = Boom("cause")
+
+    class FalsyBoom(Boom):
+        """an exception instance that is falsy (e.g. an error carrying an empty list of rejected records): its truth value must never be consulted"""
+
+        def __len__(self):
+            return 0
+
+    cause = Boom("cause") if ctx.choose(2, "cause-truthiness") == 0 else FalsyBoom("falsy cause")
 
     def fail(where):
         o = ctx.choose(3, where)
@@ -170,8 +177,9 @@ def run_unit(ctx):
         ok = e is not None and e[1] is COPY and e[2] is registry and e[3] == gathered and e[4] is tr and e[7] is FRESH and e[8] is True
         ctx.check("registry:plan_with_value_stores(copy,registry,output_node=gathered,observer,fresh_time,inplace=True)", bool(ok), props=["C13", "C05", "C15", "C07"])
         if e is not None:
-            ctx.check("C10:stale-check-max_workers==stale_check_max_workers-or-max_workers", bool(e[5] == (scmw if scmw is not None else MW)), props=["C10"])
-            ctx.check("C10:stale-check-gets-the-coerced-retry", bool(e[6] is retry_eff), props=["C10"])
+            # the dry path and the real path are one path up to the return: the stale check is sized and retried the same way in both (C14)
+            ctx.check("C10:stale-check-max_workers==stale_check_max_workers-or-max_workers", bool(e[5] == (scmw if scmw is not None else MW)), props=["C10", "C14"])
+            ctx.check("C10:stale-check-gets-the-coerced-retry", bool(e[6] is retry_eff), props=["C10", "C14"])
         ctx.check("registry:no-separate-prune_plan", bool("prune_plan" not in names))
         exp_plan, exp_out = PWVS_PLAN, PWVS_OUT
         stale_failed = any(l.startswith("stale-check=") and not l.endswith("=0") for l in ctx.labels())
